@@ -333,6 +333,15 @@ def plant_all(decls, ns, rng):
             if k != 'U':
                 out.append(('stdlib-fb', 'P0029', mut(i, (k, d[1], vs + [var(ns.n + 5, 'v', ('n', TON))], body))))
             out.append(('unknown-type', 'P0022', mut(i, (k, d[1], vs + [var(ns.n + 6, 'v', ('n', 7997))], body))))
+            # a variable that only a neighbouring POU declares (scopes must not leak from one POU to the next)
+            own = {v['name'] for v in vs}
+            for di in (i - 1, i + 1):
+                if 0 <= di < len(decls) and decls[di][0] in 'FUP':
+                    foreign = [v['name'] for v in decls[di][2] if v['ty'] == 'i' and v['name'] not in own and v['cls'] != 'e']
+                    js = [j for j, s in enumerate(body) if s[0] == 'a']
+                    if foreign and js:
+                        j = js[0]; s = body[j]
+                        out.append(('undefined-var-declared-in-neighbour', 'P0015', mut(i, (k, d[1], vs, body[:j] + [('a', s[1], s[2] + [foreign[0]])] + body[j + 1:]))))
             # per statement faults
             for j, s in enumerate(body):
                 if s[0] == 'a':
